@@ -623,3 +623,33 @@ Definition spec_capacity (m : smode) (l : qlevel) (v : Z) : Z :=
   | SAlnum => 2 * (avail / 11) + (if avail mod 11 >=? 6 then 1 else 0)
   | SByte => avail / 8
   end.
+
+(* ---------- representable contents, smallest version (C10, C13) ---------- *)
+(* the library numbers its Encoding constants Auto, Numeric, AlphaNumeric, Unicode = 0..3 *)
+Definition mode_representable (m : smode) (l : qlevel) (content : list Z) : bool :=
+  in_mode_alphabet m content && spec_fits_some m l (zlength content).
+
+(* representable: the level exists, the content is in the alphabet of the mode and some
+   version up to 40 has room for it; Auto: in one of the three modes *)
+Definition qr_representable (content : list Z) (level mode : Z) : bool :=
+  match level_of_Z level with
+  | None => false
+  | Some l =>
+    if mode =? 1 then mode_representable SNumeric l content
+    else if mode =? 2 then mode_representable SAlnum l content
+    else if mode =? 3 then mode_representable SByte l content
+    else mode_representable SNumeric l content || mode_representable SAlnum l content
+         || mode_representable SByte l content
+  end.
+
+(* the mode a symbol is expected to use: the requested one; Auto: the densest mode whose
+   alphabet contains the content (numeric < alphanumeric < byte) *)
+Definition spec_mode_used (mode : Z) (content : list Z) : smode :=
+  if mode =? 1 then SNumeric
+  else if mode =? 2 then SAlnum
+  else if mode =? 3 then SByte
+  else if in_mode_alphabet SNumeric content then SNumeric
+  else if in_mode_alphabet SAlnum content then SAlnum else SByte.
+
+Definition spec_min_version (m : smode) (l : qlevel) (n : Z) : option Z :=
+  find (spec_fits m l n) (sseq 1 40).
